@@ -53,6 +53,8 @@ class Cfg:
         self.MEMBER_GROUP = {m: g for g, ms in groups.items() for m in ms}
 
 
+ODD_GROUPS = {"payloadKind": ["_2d", "_3d"], "Route": ["viaA", "via_b"], "value__type": ["URL", "class"]}
+ODD_VALUES = {"_2d": (0, [5, -1]), "_3d": ("", ["x"]), "viaA": (False, [True]), "via_b": ({}, [{"i": 3}]), "URL": (0, [7]), "class": ("", ["c"])}
 SOLO_GROUPS = {"only": ["s_text"], "other": ["s_leaf"], "third": ["s_num"]}
 SOLO_VALUES = {"s_text": ("", ["x", "é"]), "s_leaf": ({}, [{"i": 3}, {"s": "q"}]), "s_num": (0, [5, -1])}
 CFGS = {
@@ -62,6 +64,10 @@ CFGS = {
     # groups with a single member each
     "solo": Cfg("solo", "Solo", (), SOLO_GROUPS, SOLO_VALUES, PLAIN),
     "solo_pydantic": Cfg("solo_pydantic", "Solo", ("pydantic_dataclasses",), SOLO_GROUPS, SOLO_VALUES, PLAIN),
+    # group and member names that are not lower_snake_case (camelCase / capitalised / double underscore groups; members
+    # starting with an underscore, upper-case, keyword)
+    "odd_names": Cfg("odd_names", "OddNames", (), ODD_GROUPS, ODD_VALUES, {"plain": (0, [4])}),
+    "odd_names_pydantic": Cfg("odd_names_pydantic", "OddNames", ("pydantic_dataclasses",), ODD_GROUPS, ODD_VALUES, {"plain": (0, [4])}),
 }
 
 
@@ -119,6 +125,21 @@ class Interp:
         self.switches = 0
         self.default_sets = 0
         self.multi_parse = 0
+        # Python attribute name of every member / plain field, and the key to_dict uses for a member (learned from a
+        # message holding only that member: which key it is belongs to C05 / C19, that there is exactly one to C07)
+        self.pyn = {fi.name: self.info.pyname(fi) for fi in self.mi.fields}
+        self._keys = {}
+
+    def key_of(self, member, casing):
+        k = (member, casing)
+        if k not in self._keys:
+            d, alts = self.cfg.VALUES[member]
+            msg = self.cls(**{self.pyn[member]: self.py(member, alts[0])})
+            dd = msg.to_dict(self.bp.Casing.CAMEL if casing == "camel" else self.bp.Casing.SNAKE)
+            if len(dd) != 1:
+                raise Guarded("to_dict_for_key", AssertionError(f"to_dict of a message with only {member} set has keys {sorted(dd)}"))
+            self._keys[k] = next(iter(dd))
+        return self._keys[k]
 
     # -- helpers
     def py(self, member, v):
@@ -134,8 +155,8 @@ class Interp:
     def apply(self, op):
         k = op["op"]
         if k == "construct":
-            kw = {m: self.py(m, v) for m, v in op["members"]}
-            kw.update({f: v for f, v in op["plain"].items()})
+            kw = {self.pyn[m]: self.py(m, v) for m, v in op["members"]}
+            kw.update({self.pyn[f]: v for f, v in op["plain"].items()})
             self.m = guard("construct", lambda: self.cls(**kw))
             self.model = {g: None for g in self.cfg.GROUPS}
             for m, v in op["members"]:
@@ -143,7 +164,7 @@ class Interp:
                 if v == self.cfg.VALUES[m][0]:
                     self.default_sets += 1
         elif k == "construct_multi":
-            kw = {m: self.py(m, v) for m, v in op["members"]}
+            kw = {self.pyn[m]: self.py(m, v) for m, v in op["members"]}
             try:
                 self.m = self.cls(**kw)
             except Exception:  # rejecting >=2 members of one group is acceptable
@@ -151,18 +172,19 @@ class Interp:
             g = self.cfg.MEMBER_GROUP[op["members"][0][0]]
             self.model = {gg: None for gg in self.cfg.GROUPS}
             name = self.bp.which_one_of(self.m, g)[0]
+            name = {v: k for k, v in self.pyn.items()}.get(name, name)
             passed = {m: v for m, v in op["members"]}
             if name not in passed:
                 raise Guarded("construct_multi", AssertionError(f"which_one_of names {name!r}, not one of the passed {sorted(passed)}"))
             self.model[g] = (name, passed[name])  # adopt; all other observers must agree from now on
         elif k == "set":
             m, v = op["member"], op["value"]
-            guard("setattr", setattr, self.m, m, self.py(m, v))
+            guard("setattr", setattr, self.m, self.pyn[m], self.py(m, v))
             self.select(m, v)
             if v == self.cfg.VALUES[m][0]:
                 self.default_sets += 1
         elif k == "set_plain":
-            guard("setattr_plain", setattr, self.m, op["field"], copy.deepcopy(op["value"]))
+            guard("setattr_plain", setattr, self.m, self.pyn[op["field"]], copy.deepcopy(op["value"]))
         elif k == "parse":
             recs = []
             for m, v in op["records"]:
@@ -194,9 +216,9 @@ class Interp:
             d = {}
             for m, v in op["members"]:
                 fi = self.mi.by_name(m)
-                msg = self.cls(**{m: self.py(m, v)})
+                msg = self.cls(**{self.pyn[m]: self.py(m, v)})
                 dd = msg.to_dict(self.bp.Casing.CAMEL if op["casing"] == "camel" else self.bp.Casing.SNAKE, include_default_values=False)
-                key = camel_case(m) if op["casing"] == "camel" else m
+                key = self.key_of(m, op["casing"])
                 if key not in dd:
                     raise Guarded("to_dict_for_input", AssertionError(f"to_dict of a message with only {m} set lacks key {key!r}: {dd!r}"))
                 d[key] = dd[key]
@@ -252,8 +274,8 @@ class Interp:
                         out.append(("which_one_of_should_be_unset", f"{g}: got {name!r}"))
                 else:
                     fi = self.mi.by_name(sel[0])
-                    if name != sel[0]:
-                        out.append(("which_one_of_wrong_member", f"{g}: got {name!r} want {sel[0]!r}"))
+                    if name != self.pyn[sel[0]]:
+                        out.append(("which_one_of_wrong_member", f"{g}: got {name!r} want {self.pyn[sel[0]]!r}"))
                     elif sel[1] != ANY:
                         from ..values import _bp_snap_single
 
@@ -265,7 +287,7 @@ class Interp:
                     fi = self.mi.by_name(m)
                     selected = sel is not None and sel[0] == m
                     try:
-                        getattr(msg, m)
+                        getattr(msg, self.pyn[m])
                         readable = True
                     except AttributeError:
                         readable = False
@@ -275,7 +297,7 @@ class Interp:
                     if on_wire != selected:
                         out.append(("wire_has_unselected_member" if on_wire else "wire_lacks_selected_member", f"{m} bytes={b.hex()[:120]}"))
                     for casing, d in dicts.items():
-                        key = camel_case(m) if casing == "camel" else m
+                        key = self.key_of(m, casing)
                         if (key in d) != selected:
                             out.append(("dict_has_unselected_member" if key in d else "dict_lacks_selected_member", f"{m} casing={casing} dict={d!r:.200}"))
                 rw = ref.WhichOneof(g)
@@ -334,7 +356,7 @@ def targets(ctx):
     strat = st.lists(op_strategy(), min_size=1, max_size=max_len).map(lambda ops: {"ops": ops})
 
     def variant_strat():
-        return st.sampled_from(["pydantic", "solo", "solo_pydantic", "solo_pydantic"]).flatmap(
+        return st.sampled_from(["pydantic", "solo", "solo_pydantic", "solo_pydantic", "odd_names", "odd_names", "odd_names_pydantic"]).flatmap(
             lambda name: st.lists(op_strategy(CFGS[name]), min_size=1, max_size=max_len).map(lambda ops: {"ops": ops, "cfg": name}))
 
     def stateful(ctx_, n, seed):
@@ -381,6 +403,6 @@ def targets(ctx):
 
     return [
         Target("oneof_histories", ev, strategy=strat, quick=250, thorough=3000, time_quick=80),
-        Target("oneof_histories_variants", ev, strategy=variant_strat(), quick=120, thorough=2000, time_quick=80),
+        Target("oneof_histories_variants", ev, strategy=variant_strat(), quick=200, thorough=3000, time_quick=80),
         Target("oneof_state_machine", ev, stateful=stateful, quick=40, thorough=400),
     ]
